@@ -120,6 +120,10 @@ def decision_tests(fn_node: ast.AST) -> Iterator[Tuple[ast.AST, str]]:
     for n in walk_local(fn_node):
         if isinstance(n, (ast.If, ast.While, ast.IfExp, ast.Assert)):
             yield n.test, type(n).__name__.lower()
+        elif isinstance(n, ast.Return) and isinstance(n.value, (ast.Compare, ast.BoolOp)) or (
+                isinstance(n, ast.Return) and isinstance(n.value, ast.UnaryOp) and isinstance(n.value.op, ast.Not)):
+            # a predicate: the returned comparison is the decision its callers branch on
+            yield n.value, "returned predicate"
         elif isinstance(n, ast.comprehension):
             for c in n.ifs:
                 yield c, "comprehension filter"
